@@ -62,7 +62,7 @@ def run_compress_check(prop, tier):
             continue
         evs = slice_at_line(v["trace"], v["line"])
         sc = evs[0] if evs else {}
-        key = {k: sc.get(k) for k in ("writer", "nbuf", "bigparam", "eqcorner", "src", "lenclass", "content", "alg", "rel", "bits", "hl", "ctype", "clevel", "meta", "delivery", "transport", "sched", "idx") if k in sc}
+        key = {k: sc.get(k) for k in ("writer", "nbuf", "bigparam", "eqcorner", "over_existing", "src", "lenclass", "content", "alg", "rel", "bits", "hl", "ctype", "clevel", "meta", "delivery", "transport", "sched", "idx") if k in sc}
         sig = "%s|writer=%s|sched=%s|lenclass=%s|srclen=%s|bigparam=%s" % (v["rule"], sc.get("writer"), sc.get("sched"), sc.get("lenclass"), sc.get("src_len"), sc.get("bigparam"))
         for e in evs:
             if "rec" in e and len(json.dumps(e["rec"])) > 6000:
